@@ -283,6 +283,29 @@ def generate(seed: int, tier: str) -> Dict[str, Any]:
                         "ep": {"id": "re%02d" % j, "owner": r.choice(sorted(world["agents"]) + ["world"]), "text": " ".join(r.sample(E.VOCAB, r.randint(1, 3))),
                                "ts": E.iso_from_ms(E.T0_MS - 1000).replace("+00:00", "Z"), "vec": "text"}})
         ops.append(t(1))
+    tagged = [(g, n) for g in sorted(world["graphs"]) for n in world["graphs"][g]["nodes"]
+              if n.get("label") and [t for t in (n.get("tags") or []) if t.lower() != n["label"].lower()]]
+    if r.chance(0.1) and tagged:
+        # the same seed SET reached through other keywords (a node matched by its label on one turn, by a tag on the next), with
+        # the performance layer's push-dedupe window and a tight queue budget: a result may depend on more than the set
+        g, na = r.choice(tagged)
+        agent = sorted(world["agents"])[0]
+        for w in (world, world_b):
+            w["agents"][agent] = sorted(set(w["agents"][agent]) | {g})
+        others = [n["label"] for n in world["graphs"][g]["nodes"] if n.get("label") and n["id"] != na["id"]]
+        extra = r.sample(others, min(len(others), r.randint(1, 3)))
+        tag = r.choice([t for t in na["tags"] if t.lower() != na["label"].lower()])
+        t1s = " ".join([na["label"].lower()] + [x.lower() for x in extra])
+        t2s = " ".join([x.lower() for x in extra] + [tag.lower()])
+        raw.setdefault("perf", {})["enabled"] = True
+        raw["perf"].setdefault("t1", {})["dedupe_window"] = r.choice([1, 2, 3])
+        raw["perf"].pop("parallel", None)
+        raw.setdefault("t1", {})["cache"] = {"enabled": True, "max_entries": 512, "ttl_s": 10_000_000}
+        raw["t1"]["queue_budget"] = r.choice([2, 3, 4, 10000])
+        raw.setdefault("t4", {})["enabled"] = False
+        raw.pop("scheduler", None)
+        seq = r.choice([[t1s, t2s, t1s], [t2s, t1s], [t1s, t2s]])
+        ops = [{"op": "turn", "agent": agent, "text": t, "turn_id": i, "now_ms": E.T0_MS} for i, t in enumerate(seq)]
     if r.chance(0.08) and len(world["graphs"]) >= 2:
         # slice budgets shared by the graphs of one turn: what is left for a later graph depends on what the earlier ones used, so the
         # same graph with the same seeds is propagated under different caps from turn to turn (the version stands still: T4 off)
